@@ -14,6 +14,7 @@ from .common import CallGraph, enum_switches_any, variant_names, place_type_row
 from .facts import op_place
 
 CRATES = {"gluon_vm"}
+THOROUGH_CONFIGS = ["default", "nodefault"]  # thorough also analyses the default-feature and the no-default-features builds
 LAZY = "gluon_vm::lazy::Lazy"
 LAZY_ = "gluon_vm::lazy::Lazy_"
 REF = "gluon_vm::reference::Reference"
